@@ -127,6 +127,24 @@ FIRST2_CAUGHT = FIRST3_CAUGHT | {"C01-4", "C02-3", "C02-4", "C03-3", "C03-4", "C
                  "C17-3", "C17-5", "C18-3", "C18-4", "C18-5", "C19-3", "C19-5"}
 
 
+FIRST4_CAUGHT = {"C01-9", "C01-10", "C02-9", "C02-10", "C02-11", "C03-9", "C04-9", "C04-10", "C04-11", "C05-11", "C06-9", "C06-10", "C06-11",
+                 "C07-9", "C07-10", "C07-11", "C08-10", "C08-11", "C09-10", "C10-9", "C10-10", "C10-11", "C11-9", "C11-10", "C13-10", "C13-11",
+                 "C14-10", "C14-11", "C15-11", "C16-10", "C17-10", "C18-10", "C18-11", "C19-9", "C19-10", "C19-11"}
+FIRST2_CAUGHT |= FIRST4_CAUGHT
+
+
+def needs_from_notes(d):
+    """round 4: the one-line title the author gave the change in its notes"""
+    dd = os.path.join(VERIF, "seeded", d)
+    for f in sorted(os.listdir(dd)):
+        if f.startswith("notes") and f.endswith(".md"):
+            for line in open(os.path.join(dd, f)):
+                m = re.match(r"^#+\s*Change \d+\s*[-:\u2013\u2014]+\s*(.*)$", line.strip())
+                if m:
+                    return m.group(1).replace("|", "/").strip()[:220]
+    return ""
+
+
 def main():
     rows = []
     for d in sorted(os.listdir(os.path.join(VERIF, "seeded"))):
@@ -135,7 +153,7 @@ def main():
             continue
         m = json.load(open(mp))
         rnd = m.get("round", 1)
-        needs = m.get("needs") or NEEDS2.get(d, "")
+        needs = m.get("needs") or NEEDS2.get(d, "") or needs_from_notes(d)
         if d in NEEDS2 and m.get("needs") != NEEDS2[d]:
             m["needs"] = NEEDS2[d]
             json.dump(m, open(mp, "w"), indent=1)
